@@ -25,6 +25,8 @@ pub enum Op {
     Reacquire(usize),
     Notify { cv: usize, all: bool },
     Atomic { id: usize, store: bool },
+    /// Harness-level: proceed only once every other thread is finished or blocked ("time passes").
+    Idle,
 }
 
 #[derive(Default)]
@@ -69,6 +71,15 @@ pub struct Sched {
 
 thread_local! {
     static TID: std::cell::Cell<Option<usize>> = const { std::cell::Cell::new(None) };
+    static CUR: std::cell::RefCell<Option<Arc<Sched>>> = const { std::cell::RefCell::new(None) };
+}
+
+/// Called from a controlled thread's body: wait until every other thread is finished or blocked.
+pub fn idle() {
+    let s = CUR.with(|c| c.borrow().clone());
+    if let (Some(s), Some(t)) = (s, TID.with(|t| t.get())) {
+        s.point(t, Op::Idle);
+    }
 }
 
 impl Sched {
@@ -99,6 +110,7 @@ impl Sched {
             Op::Reacquire(m) => format!("reacquire({})", n(m)),
             Op::Notify { cv, all } => format!("notify{}({})", if *all { "_all" } else { "_one" }, n(cv)),
             Op::Atomic { id, store } => format!("{}({})", if *store { "store" } else { "load" }, n(id)),
+            Op::Idle => "idle".into(),
         }
     }
 
@@ -186,6 +198,7 @@ impl Sched {
 
     fn enabled(st: &State) -> Vec<usize> {
         let mut v = Vec::new();
+        let mut idle = Vec::new();
         for (t, th) in st.threads.iter().enumerate() {
             if th.finished || !th.parked {
                 continue;
@@ -193,12 +206,20 @@ impl Sched {
             let ok = match th.pending.as_ref() {
                 Some(Op::Lock(m)) | Some(Op::Reacquire(m)) => !st.holder.contains_key(m),
                 Some(Op::Wait { .. }) => false,
+                Some(Op::Idle) => {
+                    idle.push(t);
+                    false
+                }
                 Some(_) => true,
                 None => false,
             };
             if ok {
                 v.push(t);
             }
+        }
+        // idling threads go on only when nothing else can
+        if v.is_empty() {
+            v = idle;
         }
         v
     }
@@ -350,15 +371,17 @@ pub fn run_threads<R: Send + 'static>(sched: &Arc<Sched>, bodies: Vec<Box<dyn Fn
         handles.push(
             std::thread::Builder::new()
                 .name(format!("verif-T{tid}"))
-                .stack_size(4 * 1024 * 1024)
+                .stack_size(32 * 1024 * 1024)
                 .spawn(move || {
                     TID.with(|t| t.set(Some(tid)));
+                    CUR.with(|c| *c.borrow_mut() = Some(sched2.clone()));
                     set_thread_hooks(Some(Arc::new(HookTable(sched2.clone()))));
                     let r = catch_unwind(AssertUnwindSafe(|| {
                         sched2.point(tid, Op::Start);
                         body()
                     }));
                     set_thread_hooks(None);
+                    CUR.with(|c| *c.borrow_mut() = None);
                     match r {
                         Ok(v) => {
                             results2.lock().unwrap()[tid] = Some(v);
